@@ -39,14 +39,14 @@ REQUIRED_THEOREMS = ['CfVerif.C15.' + n for n in (
     'rigid_closed',
     'rigid_preserves_distance',
     'from_rot_vec_rigid',
-    'rodrigues_zero',
+    'views_quat_rigid_partial', 'views_quat_sign_partial', 'views_rotvec_quat_agree_partial', 'axis_zero_when_theta_zero', 'live_axis_counterexample', 'rodrigues_zero',
     'rodrigues_eq_pose',
     'rodrigues_neg_eq_transpose',
     'solver_projection_eq_types',
     'ippe_axes',
     'ippe_image_consistent',
     'ippe_rotation_consistent',
-    'gen_tilt',
+    'atan2_is_the_angle', 'from_cart_normalises', 'scale_state', 'inv_after_scale', 'gen_angle_list', 'gen_pose_init', 'gen_tilt',
     'gen_rodrigues_order',
     'gen_calc_angle_pairs')]
 TRUSTED = ['harness/corr/c15.py expression translator (Python float / numpy expression -> Lean term) + correspondence',
@@ -321,6 +321,9 @@ def extract(ctx):
     for i, e in enumerate(el):
         g.raw(lean_def('projExpr%d' % i, hv, e, want='S'))
 
+    bvs = X.find(X.parse(SRC_BSV), 'LighthouseBsVectors')
+    g.strings('angleListAssigns', ['%s = %s' % (t, ast.unparse(v)) for t, v in assigns_of(X.find(bvs, 'angle_list'))])
+
     # ---- Pose --------------------------------------------------------------------------------------------
     pose = X.find(X.parse(SRC_TYPES), 'Pose')
     init = X.find(pose, '__init__')
@@ -332,6 +335,11 @@ def extract(ctx):
     g.string('poseFromQuatReturn', ast.unparse(the_return(X.find(pose, 'from_quat'))))
     g.string('poseRotVecProp', ast.unparse(the_return(X.find(pose, 'rot_vec'))))
     g.string('poseRotQuatProp', ast.unparse(the_return(X.find(pose, 'rot_quat'))))
+    f = X.find(pose, 'scale')
+    X.expect(arg_names(f) == ['self', 'scale'], 'Pose.scale: argument list changed')
+    asg = assigns_of(f)
+    X.expect([t for t, _ in asg] == ['self._t_vec'], 'Pose.scale: expected the single assignment self._t_vec = ...')
+    g.raw(lean_def('poseScaleT', [('self._t_vec', 't', 'V'), ('scale', 'k', 'S')], asg[0][1], want='V'))
     selfp = [('self.rot_matrix', 'R', 'M'), ('self.translation', 't', 'V')]
     pt = [('point', 'p', 'V')]
     f = X.find(pose, 'rotate_translate')
@@ -488,6 +496,18 @@ def real_op(op, a):
                 Q = Pose(np.array(a[12:21]).reshape(3, 3), np.array(a[21:24]))
                 r = P.rotate_translate_pose(Q) if op == 'rtp' else P.inv_rotate_translate_pose(Q)
                 return 'ok', _flat(r.rot_matrix) + _flat(r.translation)
+            if op == 'scaleseq':
+                # one Pose object used before and after scale(): inverse/forward transforms must follow the new translation
+                import copy
+                P = Pose(np.array(a[0:9]).reshape(3, 3), np.array(a[9:12]))
+                Q = Pose(np.array(a[12:21]).reshape(3, 3), np.array(a[21:24]))
+                k, p = a[24], np.array(a[25:28])
+                P.inv_rotate_translate(p), P.inv_rotate_translate_pose(Q), P.rotate_translate(p), P.rot_matrix, P.translation
+                P.scale(k)
+                P2 = copy.copy(P)
+                r = P2.inv_rotate_translate_pose(Q)
+                return 'ok', (_flat(P.rotate_translate(p)) + _flat(P.inv_rotate_translate(p)) + _flat(P2.inv_rotate_translate(p)) +
+                              _flat(r.rot_matrix) + _flat(r.translation) + _flat(P.translation))
             if op == 'rod':
                 # two identical rows + a different one: the vectorised code must treat rows independently
                 pts = np.array([a[0:3], [0.5, -1.0, 2.0], a[0:3]])
@@ -506,6 +526,8 @@ def real_op(op, a):
                 return 'ok', _flat(r[1])
             if op == 'rotvecmat':
                 return 'ok', _flat(Pose.from_rot_vec(R_vec=np.array(a)).rot_matrix)
+            if op == 'rotvecquat':
+                return 'ok', _flat(Pose.from_rot_vec(R_vec=np.array(a)).rot_quat)
             if op == 'quatmat':
                 return 'ok', _flat(Pose.from_quat(R_quat=np.array(a)).rot_matrix)
             if op == 'toippe':
@@ -674,6 +696,9 @@ def gen_cases(ctx):
         (m2, tag2) = rng.choice(mats)
         add('rtp', m + tvec() + m2 + tvec(), tag + '*' + tag2)
         add('irtp', m + tvec() + m2 + tvec(), tag + '*' + tag2)
+    for (m, tag) in mats:
+        (m2, tag2) = rng.choice(mats)
+        add('scaleseq', m + tvec() + m2 + tvec() + [rng.choice([0.5, 2.0, -1.0, 0.0, 1.0, rng.uniform(0.1, 10)])] + tvec(), tag + '*' + tag2)
     # non-orthogonal matrices: the code does plain matrix arithmetic whatever R is
     for _ in range(60):
         m = [rng.uniform(-2, 2) for _ in range(9)]
@@ -683,9 +708,10 @@ def gen_cases(ctx):
         add('rtp', m + tvec() + m2 + tvec(), 'non-orthogonal')
         add('irtp', m + tvec() + m2 + tvec(), 'non-orthogonal')
     # Rodrigues rotation and the vectorised projection
-    for (rv, tag) in rvs:
+    for (rv, tag) in rvs + UNDERFLOW:
         add('rod', tvec() + list(rv) + tvec(), tag)
         add('rotvecmat', rv, tag)
+        add('rotvecquat', rv, tag)
     for rb, tb, rc, tc, sn, tagb, tagc in solver_rows(rng, rvs + UNDERFLOW, 2000 if thorough else 400):
         add('pair', list(rb) + tb + list(rc) + tc + list(sn), tagb + '/' + tagc)
     for _ in range(300 if thorough else 80):
@@ -712,6 +738,22 @@ def correspond(ctx):
         ctx.count('result:' + real[0] + (':' + real[1] if real[0] == 'err' else ''))
         ctx.case({'op': op, 'args': a, 'kind': tag}, (op,) + tuple(round(x, 9) if abs(x) < 1e15 else x for x in a))
         tol = TOL.get(op, 1e-9)
+        # which branches of the model does the case exercise?
+        if op == 'fromcart':
+            x, y = a[0], a[1]
+            ctx.count('branch:atan2:' + ('x>0' if x > 0 else ('x<0,y>=0' if y >= 0 else 'x<0,y<0') if x < 0 else 'x=0'))
+        if op == 'lh2':
+            x = math.tan(math.pi / 6) * (math.cos(a[0]) + math.cos(a[1]))
+            ctx.count('branch:lh2:' + ('sweeps-cross-in-front' if x > 0 else 'behind'))
+        if op in ('rod', 'rotvecmat', 'rotvecquat'):
+            rv = a[3:6] if op == 'rod' else a
+            th2 = sum(c * c for c in rv)
+            ctx.count('branch:theta:' + ('zero-vector' if not any(rv) else 'underflow-to-zero' if th2 == 0.0 else 'nonzero'))
+        if op == 'rotvecquat' and real[0] == 'ok' and model[0] == 'ok' and len(model[1]) == 4:
+            # q and -q are the same rotation: compare up to the global sign (near half turns w ~ 0 and the sign is arbitrary)
+            tol = 1e-7
+            if sum(x * y for x, y in zip(model[1], real[1])) < 0:
+                real = ('ok', [-x for x in real[1]])
         ok = model[0] == real[0] and (
             (real[0] == 'err' and model[1] == real[1]) or
             (real[0] == 'ok' and len(model[1]) == len(real[1]) and all(close(x, y, tol) for x, y in zip(model[1], real[1]))))
@@ -769,22 +811,45 @@ def search(ctx):
     def tvec():
         return np.array([rng.choice([0.0, rng.uniform(-5, 5)]) for _ in range(3)])
     poses = [(Pose.from_rot_vec(R_vec=np.array(rv), t_vec=tvec()), rv, tag) for rv, tag in rvs]
-    for P, rv, tag in poses:
-        inp = {'rot_vec': list(rv), 't': _flat(P.translation)}
-        p = tvec()
+    import copy
+
+    def laws(P, Q, S, p, inp, state):
+        """the rigid-motion laws on these objects in their current state; `state` names the history of P"""
+        sfx = '' if state == 'fresh' else '-after-scale'
+        inp = dict(inp, state=state, point=_flat(p))
         if far(P.inv_rotate_translate(P.rotate_translate(p)), p, 1e-9) or far(P.rotate_translate(P.inv_rotate_translate(p)), p, 1e-9):
-            ctx.witness('pose-inverse', 'inverse point transform does not undo the forward transform', dict(inp, point=_flat(p)))
-        Q, _, _ = rng.choice(poses)
-        S, _, _ = rng.choice(poses)
+            ctx.witness('pose-inverse' + sfx, 'inverse point transform does not undo the forward transform', inp)
         back = P.inv_rotate_translate_pose(P.rotate_translate_pose(Q))
-        if far(back.rot_matrix, Q.rot_matrix, 1e-9) or far(back.translation, Q.translation, 1e-9):
-            ctx.witness('pose-inverse-pose', 'inverse pose transform does not undo the forward pose transform', inp)
+        back2 = P.rotate_translate_pose(P.inv_rotate_translate_pose(Q))
+        if far(back.rot_matrix, Q.rot_matrix, 1e-9) or far(back.translation, Q.translation, 1e-9) or \
+                far(back2.rot_matrix, Q.rot_matrix, 1e-9) or far(back2.translation, Q.translation, 1e-9):
+            ctx.witness('pose-inverse-pose' + sfx, 'inverse pose transform does not undo the forward pose transform', inp)
         l = P.rotate_translate_pose(Q).rotate_translate_pose(S)
         r = P.rotate_translate_pose(Q.rotate_translate_pose(S))
         if far(l.rot_matrix, r.rot_matrix, 1e-9) or far(l.translation, r.translation, 1e-9):
-            ctx.witness('pose-assoc', 'pose composition is not associative', inp)
-        if far(P.rotate_translate_pose(Q).rotate_translate(p), P.rotate_translate(Q.rotate_translate(p)), 1e-9):
-            ctx.witness('pose-seq', 'composed pose does not match sequential application', inp)
+            ctx.witness('pose-assoc' + sfx, 'pose composition is not associative', inp)
+        if far(P.rotate_translate_pose(Q).rotate_translate(p), P.rotate_translate(Q.rotate_translate(p)), 1e-9) or \
+                far(P.inv_rotate_translate_pose(Q).rotate_translate(p), P.inv_rotate_translate(Q.rotate_translate(p)), 1e-9):
+            ctx.witness('pose-seq' + sfx, 'composed pose does not match sequential application', inp)
+        R, t = P.matrix_vec
+        if far(P.rotate_translate(p), np.dot(R, p) + t, 1e-12) or far(R, P.rot_matrix, 0) or far(t, P.translation, 0):
+            ctx.witness('pose-accessors' + sfx, 'rotate_translate / matrix_vec / rot_matrix / translation views of the pose differ', inp)
+
+    for P, rv, tag in poses:
+        inp = {'rot_vec': list(rv), 't': _flat(P.translation)}
+        p = tvec()
+        Q, _, _ = rng.choice(poses)
+        S, _, _ = rng.choice(poses)
+        laws(P, Q, S, p, inp, 'fresh')
+        # Pose is mutable through scale(): the laws must hold again on the SAME object (and on a shallow copy, which is
+        # what LighthouseSystemScaler makes) after it has been used and then scaled
+        k = rng.choice([0.5, 2.0, 3.25, -1.0, rng.uniform(0.1, 10.0)])
+        R0, t0 = np.array(P.rot_matrix, dtype=float), np.array(P.translation, dtype=float)
+        P.scale(k)
+        if far(P.translation, k * t0, 1e-12) or far(P.rot_matrix, R0, 0):
+            ctx.witness('pose-scale', 'scale() does not multiply the translation by the factor leaving the rotation untouched', dict(inp, k=k))
+        laws(P, Q, S, p, dict(inp, k=k), 'used-then-scaled')
+        laws(copy.copy(P), Q, S, p, dict(inp, k=k), 'used-scaled-copied')
         # views of one pose agree
         for name, back in (('rot_vec', lambda: Pose.from_rot_vec(R_vec=P.rot_vec, t_vec=P.translation)),
                            ('rot_quat', lambda: Pose.from_quat(R_quat=P.rot_quat, t_vec=P.translation))):
